@@ -48,6 +48,12 @@ def membership_fact(facts, which):
 def run(ctx):
     P = ctx.program()
     commit = P.fn("TransactionManager::commit")
+    # R8: validation only reads the write sets (a refused commit leaves the transaction Active: whatever commit removed
+    # from its write set is missing when it is validated again, and both overlapping writers end up committed)
+    from .c04 import sets_read_only
+    sets_read_only(ctx, P, commit, "R8", ("write_set",), 2)
+    from .c04 import atomic_validate_publish
+    atomic_validate_publish(ctx, P, commit, "R9", [("TransactionError", "WriteConflict")])
     cx = FlowCx(P, commit)
 
     # ---- R1: write registration reachable from every transactional mutation entry point
